@@ -108,6 +108,10 @@ func concRoutes() []ref.Route {
 		{Pattern: "svc.mnt", Marker: "mroot"},
 		// Parallel wins over a Group set on the same handler
 		{Pattern: "svc.pg.$id", Marker: "pg", Parallel: true},
+		// a group that is exactly one tag, the tag being the first token of the pattern as
+		// its Mux sees it (directly on the service and inside a routed Mux)
+		{Pattern: "svc.$t.zfirst", Marker: "tfirst", Group: "${t}"},
+		{Pattern: "svc.mnt.u.$id", Marker: "ufirst", Group: "${id}"},
 	}
 }
 
@@ -176,7 +180,11 @@ func (e *concEngine) configure(s *res.Service) {
 	s.Handle("par.$id", with(h("par"), res.Parallel(true))...)
 	s.Handle("pg.$id", with(h("pg"), res.Group("pg.${id}"), res.Parallel(true))...)
 	s.Handle("", h("root")...)
+	s.Handle("$t.zfirst", with(h("tfirst"), res.Group("${t}"))...)
 	sub := res.NewMux("")
+	sub.Route("u", func(m *res.Mux) {
+		m.Handle("$id", with(h("ufirst"), res.Group("${id}"))...)
+	})
 	sub.Handle("", h("mroot")...)
 	sub.Handle("item.$id", h("mitem")...)
 	sub.Handle("tg.$g.$id", with(h("mtg"), res.Group("m${g}"))...)
@@ -278,7 +286,7 @@ func (e *concEngine) handle(kind string, r *res.Request) {
 	}
 }
 
-var concRIDs = []string{"svc.mnt.wk.a.%d.t", "svc.mnt.wk.b.%d.t.u", "svc.res.%d", "svc.sa.%d", "svc.sb.%d", "svc.tag.g%d.x", "svc.tag.g%d.y", "svc.mnt.item.%d", "svc.mnt.tg.g%d.z", "svc.mnt.deep.x.%d", "svc.mnt.thru.g%d.q", "svc.par.%d", "svc", "svc.mnt", "svc.pg.%d"}
+var concRIDs = []string{"svc.mnt.wk.a.%d.t", "svc.mnt.wk.b.%d.t.u", "svc.res.%d", "svc.sa.%d", "svc.sb.%d", "svc.tag.g%d.x", "svc.tag.g%d.y", "svc.mnt.item.%d", "svc.mnt.tg.g%d.z", "svc.mnt.deep.x.%d", "svc.mnt.thru.g%d.q", "svc.par.%d", "svc", "svc.mnt", "svc.pg.%d", "svc.t%d.zfirst", "svc.mnt.u.g%d", "svc.t%d.zfirst"}
 
 func (e *concEngine) randRID(r *rand.Rand) string {
 	hot := e.cfg.HotGroups
